@@ -11,6 +11,7 @@
 #include <sys/wait.h>
 #include <theta_sketch.hpp>
 #include <theta_union.hpp>
+#include <theta_intersection.hpp>
 #include <tuple_sketch.hpp>
 #include <tuple_union.hpp>
 #include <array_of_doubles_sketch.hpp>
@@ -312,6 +313,107 @@ static void seg_nan(vt::Rng&) {
   }
 }
 
+// ---- argument checks behind the constructors: bounds arguments, memory blocks, operands of another seed, corrupted operands
+static std::vector<uint8_t> theta_image(bool ordered, int n, int corrupt) {
+  auto u = update_theta_sketch::builder().build();
+  for (int i = 0; i < n; i++) u.update(i);
+  auto b = u.compact(ordered).serialize();
+  std::vector<uint8_t> img(b.begin(), b.end());
+  const size_t first = img.size() - (size_t)n * 8;
+  if (corrupt == 1) memcpy(img.data() + first + 8 * 3, img.data() + first + 8 * 2, 8);     // a duplicated hash
+  if (corrupt == 2) memset(img.data() + first + 8 * 3, 0, 8);                                // a zero hash: one entry fewer than the count says
+  return img;
+}
+
+static void seg_calls(vt::Rng& g, int) {
+  Ev("Begin").str("group", "calls").emit();
+  // number of standard deviations of the bounds: 1, 2 or 3
+  for (uint64_t k : {0ULL, 1ULL, 2ULL, 3ULL, 4ULL, 5ULL, 255ULL}) {
+    for (uint64_t fn = 0; fn < 2; fn++) {
+      for (uint64_t mode = 0; mode < 3; mode++) {      // list / set / hll mode
+        const long n = mode == 0 ? 3 : mode == 1 ? 40 : 3000;
+        int_site("hll.bound_num_std_dev", {k, fn, mode}, [k, fn, n](Res& r) { hll_sketch s(10); for (long i = 0; i < n; i++) s.update(i);
+          const double b = fn ? s.get_upper_bound((uint8_t)k) : s.get_lower_bound((uint8_t)k); r.accepted(); if (b >= 0) r.used(); });
+        int_site("hll_union.bound_num_std_dev", {k, fn, mode}, [k, fn, n](Res& r) { hll_union u(10); for (long i = 0; i < n; i++) u.update(i);
+          const double b = fn ? u.get_upper_bound((uint8_t)k) : u.get_lower_bound((uint8_t)k); r.accepted(); if (b >= 0) r.used(); });
+      }
+      for (uint64_t merged = 0; merged < 2; merged++)
+        int_site("cpc.bound_kappa", {k, fn, merged}, [k, fn, merged](Res& r) { cpc_sketch s(10); for (int i = 0; i < 3000; i++) s.update(i);
+          cpc_union u(10); u.update(s); cpc_sketch m = u.get_result(); const cpc_sketch& x = merged ? m : s;
+          const double b = fn ? x.get_upper_bound((unsigned)k) : x.get_lower_bound((unsigned)k); r.accepted(); if (b >= 0) r.used(); });
+    }
+  }
+  // cpc_union::update with a sketch built with another seed: refused, the union unchanged
+  for (uint64_t same_seed = 0; same_seed < 2; same_seed++)
+    for (uint64_t rvalue = 0; rvalue < 2; rvalue++)
+      int_site("cpc_union.update_seed", {same_seed, rvalue}, [same_seed, rvalue](Res& r) {
+        cpc_union u(10, 123); cpc_sketch a(10, 123); for (int i = 0; i < 500; i++) a.update(i); u.update(a);
+        const auto before = u.get_result().serialize();
+        cpc_sketch b(10, same_seed ? 123 : 456); for (int i = 400; i < 900; i++) b.update(i);
+        try { if (rvalue) u.update(std::move(b)); else u.update(b); } catch (...) { r.same(u.get_result().serialize() == before); throw; }
+        r.accepted(); (void)u.get_result().get_estimate(); r.used(); });
+  // tdigest get_CDF / get_PMF: split points must not be NaN and must be unique and increasing
+  for (uint64_t kind = 0; kind < 8; kind++)
+    for (uint64_t fn = 0; fn < 2; fn++)
+      int_site("tdigest.split_points", {kind, fn}, [kind, fn](Res& r) {
+        tdigest_double t(100); for (int i = 0; i < 1000; i++) t.update(i);
+        std::vector<double> sp = {100.0, 200.0, 300.0};
+        if (kind == 1) sp[0] = NaN; if (kind == 2) sp[1] = NaN; if (kind == 3) sp[2] = NaN; if (kind == 4) sp[1] = 100.0; if (kind == 5) sp = {300.0, 200.0, 100.0};
+        if (kind == 6) sp = {NaN}; if (kind == 7) sp = {150.0};          // a single split point: only the NaN test can refuse it
+        auto v = fn ? t.get_PMF(sp.data(), (uint32_t)sp.size()) : t.get_CDF(sp.data(), (uint32_t)sp.size()); r.accepted(); if (v.size() == sp.size() + 1) r.used(); });
+  // Bloom filter in caller's memory: the block must hold the header and the bit array
+  for (uint64_t bits : {0ULL, 1ULL, 64ULL, 65ULL, 1000ULL, 17179868921ULL})
+    for (uint64_t h : {0ULL, 3ULL})
+      for (long slack : {-33L, -8L, -1L, 0L, 1L, 64L}) {
+        const uint64_t need = 32 + 8 * ((std::min<uint64_t>(bits, 1 << 20) + 63) / 64);
+        const uint64_t len = (uint64_t)std::max(0L, (long)need + slack);
+        int_site("bloom.init_by_size", {bits, h, len}, [bits, h, len](Res& r) { std::vector<uint8_t> mem(len + 16, 0xAB);
+          auto f = bloom_filter::builder::initialize_by_size(mem.data(), len, bits, (uint16_t)h, 5); r.accepted(); r.echo(f.get_num_hashes());
+          f.update((uint64_t)7); const bool q = f.query((uint64_t)7); bool clean = true; for (size_t i = len; i < len + 16; i++) clean = clean && mem[i] == 0xAB; if (q && clean) r.used(); });
+      }
+  for (uint64_t n : {0ULL, 100ULL, 1ULL << 40})
+    for (double p : {NaN, 0.0, 0.01, 1.0, 1.5})
+      for (uint64_t len : {8ULL, 39ULL, 1ULL << 20})
+        flt_site("bloom.init_by_accuracy", {n, len}, p, [n, p, len](Res& r) { std::vector<uint8_t> mem(len, 0);
+          auto f = bloom_filter::builder::initialize_by_accuracy(mem.data(), len, n, p, 5); r.accepted(); f.update((uint64_t)7); if (f.query((uint64_t)7)) r.used(); });
+  // wrap / deserialize of a null pointer; the static size helper; the (n, m) helper with too many bits
+  for (uint64_t kind = 0; kind < 3; kind++)
+    for (uint64_t fn = 0; fn < 3; fn++)
+      int_site("bloom.from_memory", {kind, fn}, [kind, fn](Res& r) {
+        auto src = bloom_filter::builder::create_by_size(256, 3, 5); src.update((uint64_t)7); auto img = src.serialize();
+        void* ptr = kind == 0 ? (void*)img.data() : nullptr; const size_t len = kind == 2 ? 0 : img.size();
+        bool hit = false;
+        if (fn == 0) { auto f = bloom_filter::deserialize(ptr, len); hit = f.query((uint64_t)7); }
+        else if (fn == 1) { const auto f = bloom_filter::wrap(ptr, len); hit = f.query((uint64_t)7); }
+        else { auto f = bloom_filter::writable_wrap(ptr, len); hit = f.query((uint64_t)7); }
+        r.accepted(); if (hit) r.used(); });
+  for (uint64_t bits : {0ULL, 1ULL, 64ULL, 65ULL, 1ULL << 40})
+    int_site("bloom.serialized_size", {bits}, [bits](Res& r) { const size_t n = bloom_filter::get_serialized_size_bytes(bits); r.accepted(); r.echo(n); r.used(); });
+  for (uint64_t n : {0ULL, 1ULL, 1000ULL})
+    for (uint64_t m : {0ULL, 1ULL, 10000ULL, 17179868920ULL, 17179868921ULL, 1ULL << 63, ~0ULL})
+      int_site("bloom.suggest_hashes_nm", {n, m}, [n, m](Res& r) { (void)bloom_filter::builder::suggest_num_hashes(n, m); r.accepted(); r.used(); });
+  // theta_intersection given a hand-corrupted compact image (deserialized or wrapped) as its first / second operand
+  for (uint64_t kind = 0; kind < 3; kind++)
+    for (uint64_t pos = 1; pos <= 2; pos++)
+      for (uint64_t ordered = 0; ordered < 2; ordered++)
+        for (uint64_t form = 0; form < 2; form++)
+          int_site("theta_intersection.operand", {kind, pos, ordered, form}, [kind, pos, ordered, form](Res& r) {
+            auto good = theta_image(true, 40, 0); auto bad = theta_image(ordered != 0, 30, (int)kind);
+            theta_intersection in;
+            if (pos == 2) in.update(compact_theta_sketch::deserialize(good.data(), good.size()));
+            try {
+              if (form == 0) in.update(compact_theta_sketch::deserialize(bad.data(), bad.size()));
+              else in.update(wrapped_compact_theta_sketch::wrap(bad.data(), bad.size()));
+            } catch (...) {
+              // "same" here: the intersection is still usable after the refusal
+              bool usable = true;
+              try { in.update(compact_theta_sketch::deserialize(good.data(), good.size())); auto res = in.get_result(); (void)res.get_estimate(); } catch (...) { usable = false; }
+              r.same(usable); throw;
+            }
+            r.accepted(); auto res = in.get_result(); (void)res.get_estimate(); r.used(); });
+  (void)g;
+}
+
 int main(int argc, char** argv) {
   vt::install_terminate();
   uint64_t seed = (uint64_t)vt::argl(argc, argv, "--seed", 1);
@@ -326,6 +428,7 @@ int main(int argc, char** argv) {
   if (on("filters")) seg_filters(g, extra);
   if (on("sampling")) seg_sampling(g, extra);
   if (on("nan")) seg_nan(g);
+  if (on("calls")) seg_calls(g, extra);
   vt::close_out();
   fprintf(stderr, "x_args_rec: %ld events, %ld calls\n", vt::g_events, g_calls);
   return 0;
